@@ -16,10 +16,12 @@ VARIABLES l, st
 vars == <<l, st>>
 NoRef == <<"none">>
 St0(t, i) == [tr |-> t, truncP |-> EmptyFn, truncD |-> EmptyFn, refP |-> NoRef, refD |-> NoRef, plainP |-> EmptyFn, plainD |-> EmptyFn, P |-> <<>>, D |-> <<>>,
-              c |-> [r |-> -1, size |-> 188, auto |-> FALSE, reader |-> "", sched |-> "", class |-> "ref"], at |-> i]
+              c |-> [r |-> -1, size |-> 188, auto |-> FALSE, reader |-> "", sched |-> "", class |-> "ref", ambig |-> FALSE], at |-> i]
 Init == l = 1 /\ st = St0("none", 0)
 V(kind, s, more) == [prop |-> "C08", kind |-> kind, trace |-> s.tr, at |-> s.at, auto |-> s.c.auto, reader |-> s.c.reader,
-                     framed |-> (s.c.size > 188), fullreads |-> (s.c.sched = "full")] @@ more
+                     framed |-> (s.c.size > 188), fullreads |-> (s.c.sched = "full"),
+                     \* the first frame of a 189..192-byte stream holds a 0x47 among its last bytes (offsets 188..size-1)
+                     firstframe |-> IF s.c.ambig THEN "sync-like-byte-before-the-second-sync-byte" ELSE "plain"] @@ more
 
 EndPackets(s, i) ==
   LET s0 == [s EXCEPT !.at = i] IN
@@ -41,7 +43,7 @@ EndData(s, i) ==
 
 Step(s, e, i) ==
   CASE e.ev = "reset" -> St0(e.t, i)
-    [] e.ev = "cfg" -> [s EXCEPT !.c = [r |-> e.r, size |-> e.size, auto |-> e.auto, reader |-> e.reader, sched |-> e.sched, class |-> e.class], !.P = <<>>, !.D = <<>>]
+    [] e.ev = "cfg" -> [s EXCEPT !.c = [r |-> e.r, size |-> e.size, auto |-> e.auto, reader |-> e.reader, sched |-> e.sched, class |-> e.class, ambig |-> Get(e, "ambig", FALSE)], !.P = <<>>, !.D = <<>>]
     [] e.ev = "truncref" -> [s EXCEPT !.truncP = SetFn(s.truncP, e.name, e.P), !.truncD = SetFn(s.truncD, e.name, e.D)]
     [] e.ev = "packet" -> [s EXCEPT !.P = Append(s.P, e.hdg)]
     [] e.ev = "perr" -> EndPackets([s EXCEPT !.P = Append(s.P, "error")], i)
